@@ -36,46 +36,28 @@ theorem C13_append_field_numbers (virt props extra : List Property) :
   rw [mapProperties_prefix]
   exact List.prefix_append _ _
 
-/-- **Append an option** — full statement: for every enum, appending an option keeps every
-existing value (name, number). -/
-def AppendOptionStable : Prop :=
-  ∀ (e : EnumDecl) (o : Str),
-    (convEnum e).values <+: (convEnum { e with opts := e.opts ++ [o] }).values
+/-- **Append an option.** For every enum (empty or not, with or without an explicit zero) and every
+new option name, appending the option keeps every existing value — name and number — in place.
+(Before `fix: 50e59b3` this failed for an empty enum and an option ending in `UNSPECIFIED`, which
+replaced the implicit zero under a different name; witness kept in the corpus.) -/
+theorem C13_append_option (e : EnumDecl) (o : Str) :
+    (convEnum e).name = (convEnum { e with opts := e.opts ++ [o] }).name ∧
+    (convEnum e).values <+: (convEnum { e with opts := e.opts ++ [o] }).values :=
+  ⟨rfl, enumValues_prefix_all (enumPrefix e) e.opts o⟩
 
-/-- The full statement is false at one corner: an enum without options, to which an option whose
-name ends in `UNSPECIFIED` is appended. `visitEnumNode` then lets that option *replace* the
-implicit `<PREFIX>UNSPECIFIED = 0`, so the name of value 0 changes. -/
-theorem C13_append_option_counterexample : ¬ AppendOptionStable := by
-  intro h
-  have := h { name := b!"Foo", pfx := [], opts := [] } b!"X_UNSPECIFIED"
-  revert this
-  decide
-
-/-- the recorded class: empty option list and a new option ending in `UNSPECIFIED` -/
-def emptyEnumUnspecified (e : EnumDecl) (o : Str) : Bool :=
-  e.opts.isEmpty && hasSuffix b!"UNSPECIFIED" o
-
-/-- **Append an option**, outside the recorded corner: every existing value keeps its name and
-number; exactly one value is added at the end. -/
-theorem C13_append_option_partial (e : EnumDecl) (o : Str) (h : emptyEnumUnspecified e o = false) :
-    (convEnum e).values <+: (convEnum { e with opts := e.opts ++ [o] }).values := by
-  by_cases hne : e.opts = []
-  · have ho : hasSuffix b!"UNSPECIFIED" o = false := by
-      simpa [emptyEnumUnspecified, hne] using h
-    simp [convEnum, enumPrefix, hne, enumValues, ho]
-  · obtain ⟨v, hv⟩ := enumValues_prefix (enumPrefix e) e.opts o hne
-    simp only [convEnum, enumPrefix] at hv ⊢
-    rw [hv]
-    exact List.prefix_append _ _
+/-- value 0 of every enum is `<PREFIX>UNSPECIFIED`, before and after any edit -/
+theorem C13_enum_zero_stable (e : EnumDecl) :
+    ∃ tl, (convEnum e).values = (enumPrefix e ++ b!"UNSPECIFIED", 0) :: tl :=
+  enumValues_head (enumPrefix e) e.opts
 
 /-- sequences of appended options (induction over the edit sequence) -/
-theorem C13_append_option_seq (e : EnumDecl) (os : List Str) (h : e.opts ≠ []) :
+theorem C13_append_option_seq (e : EnumDecl) (os : List Str) :
     (convEnum e).values <+: (convEnum { e with opts := e.opts ++ os }).values := by
   induction os generalizing e with
   | nil => simp
   | cons o os ih =>
-    have h1 := C13_append_option_partial e o (by simp [emptyEnumUnspecified, h])
-    have h2 := ih { e with opts := e.opts ++ [o] } (by simp)
+    have h1 := (C13_append_option e o).2
+    have h2 := ih { e with opts := e.opts ++ [o] }
     simp only [List.append_assoc, List.singleton_append] at h2
     exact List.IsPrefix.trans h1 h2
 
@@ -93,8 +75,11 @@ theorem C13_append_field_seq (c : Ctx) (np : List Str) (isOneof : Bool) (virt : 
 
 /-! ## Non-vacuity -/
 
-example : emptyEnumUnspecified { name := b!"Foo", pfx := [], opts := [b!"A"] } b!"B_UNSPECIFIED" = false := by
-  decide
+/-- the formerly failing witness: empty enum, `X_UNSPECIFIED` appended — value 0 keeps its name -/
+example :
+    (convEnum { name := b!"Foo", pfx := [], opts := [] }).values = [(b!"FOO_UNSPECIFIED", 0)] ∧
+    (convEnum { name := b!"Foo", pfx := [], opts := [b!"X_UNSPECIFIED"] }).values =
+      [(b!"FOO_UNSPECIFIED", 0), (b!"FOO_X_UNSPECIFIED", 1)] := by decide
 
 example :
     (convEnum { name := b!"Foo", pfx := [], opts := [b!"A", b!"B"] }).values =
